@@ -19,7 +19,7 @@ ASSUMPTIONS = ['tilt-free wavefronts only (tilt is C04)', 'all-zero masks are re
 PLAN = {'quick': {'gen': 8}, 'thorough': {'gen': 16, 'tests': 1, 'docs': 1}}
 REQUIRED_BUCKETS = ['in:ee', 'in:oo', 'in:eo', 'in:oe', 'out:even', 'out:odd', 'dx:iso', 'dx:aniso', 'du:iso', 'du:aniso',
                     'prop<shape', 'prop=shape', 'mask', 'nomask', 'dir:pupil->image', 'dir:image->pupil', 'chain:2',
-                    'mask+prop']
+                    'mask+prop', 'repeated']
 REQUIRED_ANCHORS = ['probe:propagate_dft', 'anchor:_dft_alpha', 'anchor:_mask_shift', 'anchor:dft2',
                     'anchor:intersection_shift']
 REQUIRED_ORACLES = ['dft=fraunhofer', 'dft=fraunhofer:meta', 'dft=fraunhofer:outside=0']
@@ -102,5 +102,10 @@ def workload(ctx, lentil):
             kw['mask'] = mask
         try:
             lentil.propagate_dft(w, du, oversample=os_, **kw)     # probe decides
+            if i % 3 == 0:
+                # the same propagation again (same DFT shape keys): the probe checks every call, so a result that is only
+                # right the first time a shape is seen does not go unnoticed
+                ctx.bucket('repeated')
+                lentil.propagate_dft(w, du, oversample=os_, **kw)
         except Exception:
             pass
